@@ -51,14 +51,15 @@ const (
 )
 
 type cTx struct {
-	Marker  string
-	From    string
-	UTF8    bool
-	Rcpts   []string
-	Ending  int
-	Chunks  int // 0: DATA; n>0: BDAT in n chunks
-	BdatEnd int
-	Payload []byte
+	Marker    string
+	From      string
+	UTF8      bool
+	Rcpts     []string
+	Ending    int
+	CutInBody bool // endDisconnectMidData: where the connection breaks
+	Chunks    int  // 0: DATA; n>0: BDAT in n chunks
+	BdatEnd   int
+	Payload   []byte
 
 	ChunkReplies []actors.Reply // replies to BDAT chunks that were not the last
 
@@ -340,6 +341,7 @@ func (w *world) genClients() {
 			if s.T.Choose(st, 3) == 0 {
 				tx.Ending = s.T.Choose(st, nEndings)
 			}
+			tx.CutInBody = s.T.Choose(st, 2) == 1
 			if s.T.Choose(st, 3) == 0 {
 				tx.Chunks = 1 + s.T.Choose(st, 3)
 				tx.BdatEnd = []int{bdatComplete, bdatComplete, bdatComplete, bdatZeroLast, bdatDataMid, bdatRset, bdatDisconnect, bdatQuit}[s.T.Choose(st, 8)]
@@ -508,7 +510,12 @@ func (w *world) runClient(c *client) {
 				continue
 			}
 			if tx.Ending == endDisconnectMidData {
-				cl.Send(tx.Payload[:len(tx.Payload)/2])
+				// the connection breaks inside the header or inside the body
+				cut := len(tx.Payload) / 2
+				if tx.CutInBody {
+					cut = len(tx.Payload) - 5
+				}
+				cl.Send(tx.Payload[:cut])
 				s.Stat("client_disconnect_mid_data")
 				conn.Close()
 				return
